@@ -74,6 +74,7 @@ type World struct {
 	pendOps  []func() string // oracle lines (built when the event comes: the fee floor in force is part of them) of the chain events of this commit, one per BlockUndone / BlockMined callback, in order
 	midProb  int             // probability (percent) that "another thread" lists and inspects the pool right after such a callback
 	gm       *vlib.Rng       // the stream deciding that (does not disturb the operation generator)
+	prevR    string          // the real reject ring (dump section R) at the previous verified state
 	note     string          // context put in front of every report (e.g. "after MempoolLoad refused …")
 	mid      string          // "" | "mined" | "undone": verify() runs inside a commit, after that kind of callback
 
@@ -1004,6 +1005,25 @@ func realDump(pan bool) map[string]string {
 	return d
 }
 
+// ringOverrun: the dumped reject ring is full (ringCap-1 records) of REPLACED records none of which was in the ring at
+// the previous verified state.
+func (w *World) ringOverrun(r string) bool {
+	f := strings.Fields(r)
+	if len(f) < ringCap-1 {
+		return false
+	}
+	prev := map[string]bool{}
+	for _, e := range strings.Fields(w.prevR) {
+		prev[e[:16]] = true
+	}
+	for _, e := range f {
+		if !strings.Contains(e, fmt.Sprintf(":%d:", txpool.TX_REJECTED_REPLACED)) || prev[e[:16]] {
+			return false
+		}
+	}
+	return true
+}
+
 func parseDump(line string) map[string]string {
 	d := map[string]string{}
 	for _, sec := range strings.Split(line, " | ") {
@@ -1113,13 +1133,27 @@ func (w *World) verify() {
 
 	// ---- model vs implementation
 	agree := true
-	for _, sec := range []string{"P", "S", "W", "X", "T", "E"} {
+	// One operation replaced so many pooled transactions (a root with >= ringCap-1 descendants, enumerated by gocoin in
+	// map order) that the batch of REPLACED records alone overran the reject ring: WHICH of them survive depends on
+	// Go's map order and cannot be adopted by a re-ordering. Classifier: the ring is full of REPLACED records none of
+	// which was there before, on both sides, and the two sides differ. The pool side is still compared and the
+	// property predicate evaluated; then this scenario ends.
+	overrun := rd["R"] != md["R"] && !sameSet(rd["R"], md["R"]) && w.ringOverrun(rd["R"]) && w.ringOverrun(md["R"])
+	secs := []string{"P", "S", "W", "X", "T", "E"}
+	if overrun {
+		secs = []string{"P", "S", "T", "E"}
+		agree = false
+		w.r.Hit("gen:replaced-batch-overruns-reject-ring")
+		defer func() { w.dead, w.envAbort = true, true }()
+	}
+	defer func(r string) { w.prevR = r }(rd["R"])
+	for _, sec := range secs {
 		if rd[sec] != md[sec] {
 			agree = false
 			w.tieFail("model-mismatch:"+sec, "state section "+sec+" differs "+firstDiff(rd[sec], md[sec]))
 		}
 	}
-	if rd["R"] != md["R"] {
+	if rd["R"] != md["R"] && !overrun {
 		if sameSet(rd["R"], md["R"]) {
 			// batch of REPLACED records: the Go code walks a map, the order inside the batch is unspecified
 			var ks []string
@@ -1133,10 +1167,13 @@ func (w *World) verify() {
 			w.r.Hit("resync:ring-order")
 		} else {
 			agree = false
+			if os.Getenv("VERIF_C12_DEBUG") != "" {
+				fmt.Fprintln(realErr, "R gocoin:", rd["R"], "\nR model :", md["R"], "\nlog tail:", strings.Join(w.log[len(w.log)-8:], "\n"))
+			}
 			w.tieFail("model-mismatch:R", "rejected list differs "+firstDiff(rd["R"], md["R"]))
 		}
 	}
-	if rd["L"] != md["L"] {
+	if rd["L"] != md["L"] && !overrun {
 		if sameSet(rd["L"], md["L"]) && feeTies() {
 			ks := strings.Fields(rd["L"])
 			if rep := w.ask(fmt.Sprintf("setorder %d %s", len(ks), strings.Join(ks, " "))); rep != "ok" {
